@@ -299,6 +299,7 @@ pub trait AggValidBasic<T: IsNone>: IntoIterator<Item = T> + Sized {
     /// - The first element is the calculated mean
     /// - The second element is the calculated variance
     /// - Both elements are `f64::NAN` if there are fewer valid elements than `min_periods`
+    /// - The variance is `f64::NAN` if there are fewer than two valid elements
     ///
     /// # Type Parameters
     ///
@@ -335,12 +336,13 @@ pub trait AggValidBasic<T: IsNone>: IntoIterator<Item = T> + Sized {
         m1 /= n_f64; // E(x)
         m2 /= n_f64; // E(x^2)
         m2 -= m1.powi(2); // variance = E(x^2) - (E(x))^2
-        if m2 <= EPS {
+        if n < 2 {
+            // the sample variance needs at least two observations
+            (m1, f64::NAN)
+        } else if m2 <= EPS {
             (m1, 0.)
-        } else if n >= 2 {
-            (m1, m2 * n_f64 / (n - 1).f64())
         } else {
-            (f64::NAN, f64::NAN)
+            (m1, m2 * n_f64 / (n - 1).f64())
         }
     }
 
